@@ -24,17 +24,11 @@ I16MAX = 32767
 # Every bundled terminal class a Motor can be linked to (harness/motorterms.py): EL7041, both
 # channels of the EL7332 (encoder from another bundled terminal) and of the EL7062.  The terminal
 # objects are the bundled classes; their PDO tables come from the package's own parse_pdos over the
-# device's CoE dictionary (two EL7041 layouts keep a hand-written table at other places).  Where a
+# device's CoE dictionary (one EL7041 layout keeps a hand-written table at other places, addressed without FMMU).  Where a
 # quantity lives and what it is (velocity and position: SIGNED numbers of the mapped width) is taken
 # from the device description, never from the class under test.
 
 HAND = {
-    "fmmu": dict(in_sz=12, out_sz=10,
-                 pdos={(0x7010, 1): ("OUT", 6, 0), (0x7010, 2): ("OUT", 6, 1), (0x7010, 3): ("OUT", 6, 2),
-                       (0x7010, 0x21): ("OUT", 8, "H"),
-                       (0x6000, 0x11): ("IN", 2, "I"),
-                       (0x6010, 1): ("IN", 10, 0), (0x6010, 2): ("IN", 10, 1), (0x6010, 4): ("IN", 10, 3),
-                       (0x6010, 0xc): ("IN", 11, 3), (0x6010, 0xd): ("IN", 11, 4)}),
     "direct": dict(in_sz=9, out_sz=5,
                    pdos={(0x7010, 1): ("OUT", 0, 5), (0x7010, 2): ("OUT", 0, 6), (0x7010, 3): ("OUT", 0, 7),
                          (0x7010, 0x21): ("OUT", 3, "H"),
@@ -43,7 +37,6 @@ HAND = {
                          (0x6010, 0xc): ("IN", 1, 0), (0x6010, 0xd): ("IN", 1, 7)}),
 }
 LAYOUTS = {
-    "EL7041/hand-fmmu": dict(motor=("EL7041", 1), fmmu=True, position=5, hand="fmmu"),
     "EL7041/hand-direct": dict(motor=("EL7041", 1), fmmu=False, position=9, hand="direct"),
     "EL7041": dict(motor=("EL7041", 1), fmmu=True, position=3),
     "EL7332.1+EL5042.2": dict(motor=("EL7332", 1), fmmu=True, position=7,
@@ -318,7 +311,7 @@ def run(ctx):
     groups = {}
     for name, bt in builts.items():
         groups.setdefault((bt["outbits"], bt["posbits"]), []).append(name)
-    stride = {(16, 32): (29, 1), (16, 64): (89, 11), (32, 32): (53, 7)}
+    stride = {(16, 32): (37, 1), (16, 64): (101, 11), (32, 32): (61, 7)}
     fill = random.Random(2626)                           # seed-independent filler for the grid
     cases, meta = [], []
     sizes = {}
@@ -338,7 +331,7 @@ def run(ctx):
     ctx.rule = ("boundary grid of (desired velocity aimed at each limit -1/0/+1 and far beyond the output's "
                 "range, acceleration limit, velocity limit, previous velocity, switches) pruned by the "
                 "property's preconditions (a fixed stride per tier) + seeded random inputs, on every bundled "
-                "terminal a Motor can be linked to (EL7041 x 3 PDO layouts, EL7332 channels 1/2 with the encoder of "
+                "terminal a Motor can be linked to (EL7041 x 2 PDO layouts, EL7332 channels 1/2 with the encoder of "
                 "an EL5042 / EL7041, EL7062 channels 1/2; PDO tables from the package's own parse_pdos); "
                 "non-trivial = preconditions hold (TLC's judgement) and the law's three stages do not all "
                 "coincide with the desired velocity")
